@@ -35,13 +35,15 @@ STUBS = ["strax.utils.ThreadPoolExecutor / wait -> solver-driven stub", "instrum
 RUNS = ["0", "1", "2", "3", "4", "5"]
 
 
-def _lay(r):
+def _lay(r, empty=False):
     k = int(r)
+    if empty:  # a quiet run: its chunks carry no rows at all
+        return ctx.Layout([100 * k, 100 * k + 50, 100 * k + 100], [[], []])
     return ctx.Layout([100 * k, 100 * k + 50, 100 * k + 100], [[(100 * k + 1, 100 * k + 2, 10 * k)], [(100 * k + 60, 100 * k + 61, 10 * k + 1)]])
 
 
-def _plugins(runs, fail=()):
-    layouts = {r: _lay(r) for r in runs}
+def _plugins(runs, fail=(), empty=()):
+    layouts = {r: _lay(r, r in empty) for r in runs}
     obj = core.active()  # object arrays while a symbolic path is active (the np shim makes object arrays then)
     return [ctx.P_source_runs("src", "ksrc", layouts, obj, fail_runs=fail),
             ctx.P_map("m1", "src", obj, kind="kk"), ctx.P_map("m2", "src", obj, kind="kk", offset=7)]
@@ -53,7 +55,7 @@ def _setup():
 
 
 # ---------------------------------------------------------------------------- multi_run ordering
-def sym_multirun(nruns, workers, ignore_errors, targets="m1"):
+def sym_multirun(nruns, workers, ignore_errors, targets="m1", quiet=False):
     import strax
     import strax.utils as su
 
@@ -61,6 +63,9 @@ def sym_multirun(nruns, workers, ignore_errors, targets="m1"):
     fails = [r for r in runs if bool(fresh_bool(f"fail_{r}"))]
     if len(fails) == len(runs):
         raise core.PathAbort("every run fails: nothing to compare")
+    # quiet: the solver may also pick ONE run that yields no rows at all (-1: none)
+    qi = core.concretize(fresh_int("quiet", -1, nruns - 1)) if quiet else -1
+    empties = [runs[qi]] if qi >= 0 else []
 
     def chooser(pending):
         i = core.concretize(fresh_int(f"pick{len(ctx.StubPool.order)}", 0, len(pending) - 1))
@@ -70,20 +75,20 @@ def sym_multirun(nruns, workers, ignore_errors, targets="m1"):
     ctx.multirun_shims(inj, chooser)
     try:
         MemFrontend, _, _ = ctx.make_storage_classes()
-        st = ctx.make_context(_plugins(runs, fails), storage=[MemFrontend()])
+        st = ctx.make_context(_plugins(runs, fails, empties), storage=[MemFrontend()])
         tg = targets if isinstance(targets, str) else tuple(targets)
         raised = None
         try:
             got = st.get_array(runs, tg, max_workers=workers, ignore_errors=ignore_errors, processor="single_thread")
         except ZeroDivisionError as e:
             raised = e
-        except ValueError as e:
-            prove(False, f"multirun:raised {type(e).__name__}: {str(e)[:60]}")
+        except (ValueError, TypeError) as e:  # e.g. np.concatenate of per-run results with different fields
+            prove(False, "multirun:combining the per-run results raised (ValueError / TypeError)")
         order = list(ctx.StubPool.order)
     finally:
         inj.restore()
     # sequential reference
-    st2 = ctx.make_context(_plugins(runs, ()), storage=[MemFrontend()])
+    st2 = ctx.make_context(_plugins(runs, (), empties), storage=[MemFrontend()])
     ok_runs = [r for r in runs if r not in fails]
     if fails and not ignore_errors:
         prove(raised is not None, f"multirun:a failing run {fails} was swallowed (order {order})")
@@ -94,6 +99,7 @@ def sym_multirun(nruns, workers, ignore_errors, targets="m1"):
         a = st2.get_array(r, tg, processor="single_thread")
         want_ids += [int(x) for x in a["id"]]
         want_run += [r] * len(a)
+    prove("run_id" in got.dtype.names, "multirun:run_id column missing")
     prove([int(x) for x in got["id"]] == want_ids, f"multirun:rows are not the per-run results in run-id order (completion order {order})")
     prove([str(x) for x in got["run_id"]] == want_run, f"multirun:run_id column wrong (completion order {order})")
     return [order, fails]
@@ -237,6 +243,8 @@ def _g_multi(tier):
             for ig in (False, True):
                 g.append(dict(nruns=n, workers=w, ignore_errors=ig))
     g.append(dict(nruns=3, workers=2, ignore_errors=True, targets=["m1", "m2"]))
+    for n, w, ig in ((2, 1, False), (3, 2, False), (3, 1, True)):
+        g.append(dict(nruns=n, workers=w, ignore_errors=ig, quiet=True))
     return g
 
 
